@@ -161,6 +161,35 @@ def run_lsp(ctx, ws, model, order):
                 mid = (u["start_b"] + u["end_b"]) // 2
                 u2["start_b"], u2["end_b"] = mid, mid + 1
                 judge_usage_lsp(ctx, ws, model, order, f, u, actual_at)
+        # a file that changed on disk after the scan (checkout, formatter) is opened: the text the editor sends counts
+        for rel in ws.workspace_py():
+            f = ws.abs(rel)
+            m = model.models.get(f)
+            if f in opened or m is None or not m.ok or not os.path.basename(rel).startswith("test_"):
+                continue
+            cand = [u for u in m.usages if u["kind"] == "test_param" and not m.defs_named(u["name"])
+                    and u["name"] not in ("request", "self", "cls") and not u.get("has_default")]
+            if not cand:
+                continue
+            u = cand[0]
+            text = ws.files[rel]
+            new = text + ("" if text.endswith("\n") else "\n") + f"\n\nimport pytest\n\n\n@pytest.fixture\ndef {u['name']}():\n    return 0\n"
+            def_line = new.rstrip("\n").count("\n")          # 1-based line of the appended "def"
+            open(f, "w").write(new)
+            before = srv.seq
+            srv.did_open(f, new)
+            srv.wait_diagnostics(f, before, timeout=20)
+            r = srv.definition(f, u["line"] - 1, u["start_b"])
+            res = r.get("result")
+            if isinstance(res, list):
+                res = res[0] if res else None
+            act = (uri_to_path(res["uri"]), res["range"]["start"]["line"] + 1) if res else None
+            ctx.judged()
+            if act != (f, def_line):
+                ctx.violation({"kind": "same-file-definition-of-opened-text-not-used", "level": "lsp", "file": rel, "name": u["name"]},
+                              {"expected": [rel, def_line], "actual": act, "spec": ws.spec}, files=ws.files | {rel + ".opened": new})
+            ctx.nontrivial(("lsp", "opened_text_differs_from_scanned"))
+            break
         ctx.count("lsp_workspaces")
     finally:
         srv.shutdown()
